@@ -26,6 +26,9 @@ the failure persists) and classified into exactly one signature:
     C04:negative-bound-count-without-sum     F17: in-process Histogram with a negative first bound
     C04:duplicate-mixed-timestamp-spelling   F29 (converse only): one series twice at one instant, once as aaaa.bbbb and once in float
                                              spelling — kept on the first parse (a Timestamp never equals a float), dropped on the second
+    C04:stray-quoted-sample-name             F32 (converse only): `{"\\"a\\""} 1` without metadata — the family is named `a`, its sample `"a"`;
+                                             re-exposed, the sample opens a second family `a` ("Clashing name").  Not in the corpus
+                                             until the signature is listed: add the document '{"\\"a\\""} 1\\n# EOF\\n' to CORPUS_DOCS then
     C04:exemplar-rendering                   a '"' in an exemplar label and the exposition line is NOT what the format asks for
     C04:label-name-unvalidated:<source>      F20 class (C03): a label name the library itself rejects reached the exposition
     C04:parser-only-rule:<class>             content that breaks no C15 rule but that the library's own parser rejects (or changes):
@@ -1045,6 +1048,10 @@ def classify_doc(res):
         if all(ref_exemplar_labels(s.exemplar.labels) in text2 for s in quoted):
             return 'C04:exemplar-quote-in-label'
         return 'C04:exemplar-rendering'
+    # F32: a stray sample (no metadata) whose name is itself a quoted string: the family is named by unquoting it again
+    if cls.startswith('reparse-raises-ValueError') and any(m.type == 'unknown' and s.name != m.name and s.name.startswith('"')
+                                                          for m in fams for s in m.samples):
+        return 'C04:stray-quoted-sample-name'
     if cls == 'reparse-sample-count' and mixed_spelling_duplicates(fams):
         return 'C04:duplicate-mixed-timestamp-spelling'
     kinds = exposed_ts_kinds(fams)
